@@ -16,6 +16,7 @@ func init() {
 	vHarnesses["C06_hist"] = H_C06_hist
 	vHarnesses["C08_feed"] = H_C08_feed
 	vHarnesses["C03_pair"] = H_C03_pair
+	vHarnesses["C06_reopen"] = H_C06_reopen
 }
 
 type vSink struct {
@@ -411,4 +412,59 @@ func H_C03_pair() {
 	assert(ma.VbID == 1 && ma.Offset.SeqNo == x && ma.Offset.StartSeqNo == s1 && ma.Offset.EndSeqNo == e1 && ma.Offset.VbUUID == ua && string(ma.Key) == "ka", "vBucket 1's event is untouched by vBucket 2's stream")
 	assert(db.VbID == 2 && db.Offset.SeqNo == y && db.Offset.StartSeqNo == s2 && db.Offset.EndSeqNo == e2 && db.Offset.VbUUID == ub && string(db.Key) == "kb", "vBucket 2's event is untouched by vBucket 1's stream")
 	cover("pair")
+}
+
+// H_C06_reopen: one observer lives through the whole session and is handed to
+// every re-open of its vBucket (stream.reopenStream after a transient end). S
+// stream sessions of the real client.OpenStream + the real observer over the
+// scripted server: each open answers with an arbitrary failover log head, then a
+// marker and a document event arrive, then the stream ends transiently. Every
+// offset handed out is (own seqno, the announced snapshot of ITS stream, the
+// vbUUID of the branch ITS stream was opened on) - never a mixture of two streams.
+func H_C06_reopen() {
+	S := 2
+	if tierThorough() {
+		S = 3
+	}
+	g := vNewGocb()
+	g.timing = func(string) int { return 0 }
+	var head gocbcore.VbUUID
+	g.openStream = func(c vOpenStreamCall) ([]gocbcore.FailoverEntry, error) {
+		return []gocbcore.FailoverEntry{{VbUUID: head, SeqNo: 0}, {VbUUID: gocbcore.VbUUID(1), SeqNo: 0}}, nil
+	}
+	cl := &client{config: &dcpcfg.Dcp{}}
+	o, sink := vNewObserver(vObsConfig(), 7, ^uint64(0), nil)
+	off := vArbOffset("resume")
+	for i := 0; i < S; i++ {
+		head = gocbcore.VbUUID(nondetU64("head"))
+		err := cl.OpenStream(7, nil, off, o)
+		assert(err == nil, "a confirmed stream request succeeds")
+		assert(g.openStreamCalls[len(g.openStreamCalls)-1].observer == gocbcore.StreamObserver(o), "the re-open hands the same observer to the server connection")
+		start, end, seq := nondetU64("start"), nondetU64("end"), nondetU64("seq")
+		assume(start <= seq && seq <= end)
+		o.SnapshotMarker(models.DcpSnapshotMarker{StartSeqNo: start, EndSeqNo: end, VbID: 7})
+		before := len(sink.events)
+		if nondetBool("deletion") {
+			o.Deletion(gocbcore.DcpDeletion{SeqNo: seq, VbID: 7, Key: []byte("k")})
+		} else {
+			o.Mutation(gocbcore.DcpMutation{SeqNo: seq, VbID: 7, Key: []byte("k")})
+		}
+		assert(len(sink.events) == before+1, "the document event is forwarded")
+		var got *models.Offset
+		switch ev := sink.events[before].(type) {
+		case models.DcpMutation:
+			got = ev.Offset
+		case models.DcpDeletion:
+			got = ev.Offset
+		}
+		assert(got != nil && got.SeqNo == seq && got.StartSeqNo == start && got.EndSeqNo == end, "offset names its own event and the snapshot announced on its own stream")
+		assert(got.VbUUID == head, "offset carries the vbUUID of the branch its own stream was opened on")
+		off = got
+		ends := len(sink.ends)
+		o.End(models.DcpStreamEnd{VbID: 7}, gocbcore.ErrDCPStreamStateChanged)
+		assert(len(sink.ends) == ends+1, "the transient end reaches the stream layer")
+		if i > 0 {
+			cover("reopened")
+		}
+	}
 }
